@@ -14,6 +14,9 @@ type packetAccumulator struct {
 	// Second set of packets completed by the last packet added, when it completed two: the set that was pending is
 	// returned first, this one is next
 	next []*Packet
+
+	// Whether the last packet of the queue has been received twice already
+	duplicated bool
 }
 
 // newPacketAccumulator creates a new packet queue for a single PID
@@ -31,9 +34,12 @@ func (b *packetAccumulator) add(p *Packet) (ps []*Packet) {
 	// Throw away packet if it's the same as the previous one
 	// This has to be checked first since a duplicate doesn't increment the continuity counter and would otherwise be
 	// mistaken for a discontinuity
-	if isSameAsPrevious(mps, p) {
+	// A packet is sent twice at most: a third one that looks the same comes after a gap of 15 packets, or a multiple
+	if isSameAsPrevious(mps, p) && !b.duplicated {
+		b.duplicated = true
 		return
 	}
+	b.duplicated = false
 
 	// Empty buffer if we detect a discontinuity
 	if hasDiscontinuity(mps, p) {
